@@ -33,10 +33,15 @@ class HAProxyProtocolWrapper(policies.ProtocolWrapper):
         self._proxyInfo: Optional[_info.ProxyInfo] = None
         self._parser: Union[V2Parser, V1Parser, None] = None
         self._undecided = b""
+        self._refused = False
 
     def dataReceived(self, data: bytes) -> None:
         if self._proxyInfo is not None:
             return self.wrappedProtocol.dataReceived(data)
+        if self._refused:
+            # The stream did not begin with a valid header: whatever a
+            # transport still delivers after the close request is dropped.
+            return None
 
         parser = self._parser
         if parser is None:
@@ -60,6 +65,7 @@ class HAProxyProtocolWrapper(policies.ProtocolWrapper):
                 self._undecided = data
                 return None
             else:
+                self._refused = True
                 self.loseConnection()
                 return None
 
@@ -68,6 +74,7 @@ class HAProxyProtocolWrapper(policies.ProtocolWrapper):
             if remaining:
                 self.wrappedProtocol.dataReceived(remaining)
         except InvalidProxyHeader:
+            self._refused = True
             self.loseConnection()
 
     def getPeer(self) -> interfaces.IAddress:
